@@ -215,7 +215,8 @@ def dictEntryOfJson (convK convV : Json → Option Value) (j : Json) : Option (V
     | _, _ => none                                         -- KeyError
   | _ => none
 
-/-- a field named `self`: `hl.Struct.__init__(self, **kwargs)` cannot take it as a keyword -/
+/-- a field named `self`: before /repo commit c88553592 `hl.Struct.__init__(self, **kwargs)` could not take it as a keyword, so
+reading such a struct back raised (repaired defect, kept for the record: `fromJsonStructOld`) -/
 def hasSelfField (fs : List (Str × HType)) : Bool := fs.any fun f => f.1 == cp% "self"
 
 def natsOfJson : List Json → Option (List Nat)
@@ -245,9 +246,7 @@ def fromJson : HType → Json → Option Value
   | .set t, .arr js => (mapOpt (fun j => nullOr j (fromJson t)) js).map .set
   | .dict k v, .arr js =>
     (mapOpt (dictEntryOfJson (fromJson k) (fromJson v)) js).map .dict
-  | .struct fs, .obj kvs =>
-    if hasSelfField fs then none            -- `Struct(**{'self': …})`: TypeError, multiple values for argument 'self'
-    else (fromJsonFields fs kvs).map .struct
+  | .struct fs, .obj kvs => (fromJsonFields fs kvs).map .struct
   | .tuple ts, .arr js => (fromJsonTuple ts js).map .tup
   | .ndarray t _, .obj kvs =>
     if isNumeric t then
@@ -291,8 +290,7 @@ def primNone : HType → Bool
   | _ => false
 
 mutual
-/-- every n-d array has a numeric element type and no struct has a field named `self` (the restrictions left after commit
-1824f18d5) -/
+/-- every n-d array has a numeric element type (the only restriction left after commits 1824f18d5 and c88553592) -/
 def JsonOK : HType → Value → Prop
   | _, .na => True
   | .interval t, .interval s e _ _ => JsonOK t s ∧ JsonOK t e
@@ -300,7 +298,7 @@ def JsonOK : HType → Value → Prop
   | .set t, .set xs => ∀ x ∈ xs, JsonOK t x
   | .dict k v, .dict es =>
     ∀ p ∈ es, JsonOK k p.1 ∧ JsonOK v p.2
-  | .struct fs, .struct xs => hasSelfField fs = false ∧ JsonOKFields fs xs
+  | .struct fs, .struct xs => JsonOKFields fs xs
   | .tuple ts, .tup xs => JsonOKTuple ts xs
   | .ndarray t _, .nd _ _ _ => isNumeric t = true
   | _, _ => True
@@ -311,6 +309,10 @@ def JsonOKTuple : List HType → List Value → Prop
   | t :: ts, x :: xs => JsonOK t x ∧ JsonOKTuple ts xs
   | _, _ => True
 end
+
+/-- the struct clause of `fromJson` BEFORE commit c88553592: `Struct(**{'self': …})` raised `TypeError` -/
+def fromJsonStructOld (fs : List (Str × HType)) (kvs : List (Str × Json)) : Option Value :=
+  if hasSelfField fs then none else (fromJsonFields fs kvs).map .struct
 
 /-- `t._from_json(t._to_json(v))` -/
 def roundTrip (t : HType) (v : Value) : Option Value := (toJsonNa t v).bind (fromJsonNa t)
